@@ -23,7 +23,9 @@ def gen_workspace(r, widx):
         name = "bp%d%s" % (i, r.choice(["", "-x", "_y"]))
         # "helper-<i>" is unique in the workspace; "tool2" may exist in several crates (same artifact path in the shared target dir)
         extra = r.sample(["helper-%d" % i, "tool2"], r.choice([0, 0, 1, 2]))
-        bps.append({"kind": "libcnb", "id": "%s/%s" % (r.choice(["acme", "vp", "a.b"]), name.replace("_", ".")), "dir": "buildpacks/%s" % name, "crate": name, "extra_bins": extra})
+        # the main binary target is normally named after the package; a crate with exactly one [[bin]] of another name is legal too
+        main_bin = name if (extra or r.random() < 0.6) else "launcher-%d" % i
+        bps.append({"kind": "libcnb", "id": "%s/%s" % (r.choice(["acme", "vp", "a.b"]), name.replace("_", ".")), "dir": "buildpacks/%s" % name, "crate": name, "extra_bins": extra, "main_bin": main_bin})
     comps = []
     for j in range(r.choice([0, 1, 1, 2])):
         pool = bps + comps
@@ -53,6 +55,8 @@ def write_workspace(root, ws):
         os.makedirs(os.path.join(d, "src", "bin"))
         with open(os.path.join(d, "Cargo.toml"), "w") as f:
             f.write('[package]\nname = "%s"\nversion = "0.1.0"\nedition = "2021"\n' % b["crate"])
+            if b["main_bin"] != b["crate"]:
+                f.write('\n[[bin]]\nname = "%s"\npath = "src/main.rs"\n' % b["main_bin"])
         with open(os.path.join(d, "buildpack.toml"), "w") as f:
             f.write('api = "0.10"\n\n[buildpack]\nid = "%s"\nversion = "0.1.0"\n# a comment that must survive byte for byte\n\n[[targets]]\nos = "linux"\narch = "amd64"\n' % b["id"])
         with open(os.path.join(d, "src", "main.rs"), "w") as f:
@@ -128,7 +132,7 @@ def expected_tree(ws, root, selected_ids, profile, pdir):
         if x["kind"] == "libcnb":
             tdir = os.path.join(root, "target", TRIPLE, prof)
             out[(d + "/bin").encode()] = ("d",)
-            out[(d + "/bin/build").encode()] = ("f", open(os.path.join(tdir, x["crate"]), "rb").read())
+            out[(d + "/bin/build").encode()] = ("f", open(os.path.join(tdir, x["main_bin"]), "rb").read())
             out[(d + "/bin/detect").encode()] = ("l", b"build")
             if x["extra_bins"]:
                 out[(d + "/.libcnb-cargo").encode()] = ("d",)
@@ -185,7 +189,7 @@ def compare_tree(snap, want, scope_prefix=None):
     return diffs
 
 
-PRESEEDS = ["extra-files", "file-where-bin-dir", "detect-regular-file", "build-is-dir", "dir-where-buildpack-toml", "nested-stale-tree", "stale-additional-bin", "old-package-toml",
+PRESEEDS = ["outdir-dangling-symlink", "outdir-symlink-to-dirty-dir", "extra-files", "file-where-bin-dir", "detect-regular-file", "build-is-dir", "dir-where-buildpack-toml", "nested-stale-tree", "stale-additional-bin", "old-package-toml",
             "dangling-links"]
 
 
@@ -196,6 +200,17 @@ def preseed(kind, odir):
         vp.rmtree(odir)
         with open(odir, "w") as f:
             f.write("a file where the output directory belongs")
+        return
+    if kind in ("outdir-dangling-symlink", "outdir-symlink-to-dirty-dir"):
+        os.makedirs(os.path.dirname(odir), exist_ok=True)
+        vp.rmtree(odir)
+        elsewhere = os.path.join(os.path.dirname(os.path.dirname(os.path.dirname(os.path.dirname(odir)))), "elsewhere-" + os.path.basename(odir))
+        vp.rmtree(elsewhere)
+        if kind == "outdir-symlink-to-dirty-dir":
+            os.makedirs(os.path.join(elsewhere, "bin"))
+            with open(os.path.join(elsewhere, "STALE"), "w") as f:
+                f.write("must stay untouched and must not show up in the package")
+        os.symlink(elsewhere, odir)
         return
     os.makedirs(odir, exist_ok=True)
     if kind == "extra-files":
@@ -315,7 +330,7 @@ def scenario(arg):
         rc, out, err = run_package(cargo_libcnb, root, root, "dev")
         clean = vp.snapshot(pdir)
         # (b) stale / foreign content, then package again from the root: must equal the clean tree
-        kinds = PRESEEDS if tier == "thorough" else r.sample(PRESEEDS, 4)
+        kinds = PRESEEDS if tier == "thorough" else PRESEEDS[:2] + r.sample(PRESEEDS[2:], 3)
         for kind in kinds:
             victim = r.choice(ws["bps"] + ws["comps"])
             odir = os.path.join(pdir, TRIPLE, "debug", victim["id"].replace("/", "_"))
@@ -326,6 +341,11 @@ def scenario(arg):
             what = "re-packaging over %s in the output of %s" % (kind, victim["id"])
             if not judge_run(ws, root, ".", "dev", pdir, rc, out, err, sh, c, what):
                 return sh.dict()
+            if kind == "outdir-symlink-to-dirty-dir":
+                stale = os.path.join(root, "elsewhere-" + victim["id"].replace("/", "_"), "STALE")
+                if not os.path.exists(stale):
+                    sh.violation("stale:symlink-target-wiped", "%s: the directory the stale symlink pointed to (outside the package dir) was emptied" % what, c)
+                    return sh.dict()
             after = vp.snapshot(pdir)
             if {k: v for k, v in after.items() if v[0] != "f" or not k.endswith(b"package.toml")} != {k: v for k, v in clean.items() if v[0] != "f" or not k.endswith(b"package.toml")}:
                 sh.violation("stale:%s" % kind, "%s: the result differs from packaging into an empty directory: %s" % (what, vp.snap_diff(clean, after, 4)), c)
